@@ -107,4 +107,45 @@ theorem mkDict_distinct (snps : List Snp) (hk : keysDistinct snps) : mkDict snps
   rw [mkDict_foldl snps [] (by simp) hk]
   simp
 
+/-! ### the line-by-line pass -/
+
+theorem mapM_option_eq_map {α β : Type} (f : α → Option β) (g : α → β) (h : ∀ a b, f a = some b → b = g a)
+    (l : List α) (r : List β) (hr : l.mapM f = some r) : r = l.map g := by
+  induction l generalizing r with
+  | nil => simp at hr; simp [hr]
+  | cons a t ih =>
+    rw [List.mapM_cons] at hr
+    cases hfa : f a with
+    | none => simp [hfa] at hr
+    | some b =>
+      cases ht : t.mapM f with
+      | none => simp [hfa, ht] at hr
+      | some bs =>
+        simp [hfa, ht] at hr
+        subst hr
+        rw [List.map_cons, ← h a b hfa, ← ih bs ht]
+
+theorem callsFor_eq (inds : List Indiv) (popIds : List ℕ) (cl : List (ℕ × ℕ)) (h : callsFor inds popIds = some cl) :
+    cl = popIds.map (callsOfPop inds) := by
+  unfold callsFor at h
+  refine mapM_option_eq_map _ (callsOfPop inds) ?_ popIds cl h
+  intro p b hb
+  by_cases hp : hasPop p inds = true
+  · simp [hp] at hb; exact hb.symm
+  · simp [hp] at hb
+
+/-- when no requested population lacks a sample column, the entries are the kept lines with their counted calls -/
+theorem vcfEntries_eq (filt : Bool) (popIds : List ℕ) (sites : List Site) (es : List Snp)
+    (h : vcfEntries filt popIds sites = some es) :
+    es = (sites.filter (siteKept filt)).map fun st => siteSnp st (siteCalls st popIds) := by
+  unfold vcfEntries at h
+  refine mapM_option_eq_map _ _ ?_ _ es h
+  intro st b hb
+  cases hc : callsFor st.inds popIds with
+  | none => simp [hc] at hb
+  | some cl =>
+    simp [hc] at hb
+    rw [← hb, callsFor_eq st.inds popIds cl hc]
+    rfl
+
 end DadiVerif.DataDict
